@@ -321,13 +321,10 @@ class Part(object):
         divs_per_beat = self.inv_beat_map(
             1 + self.beat_map(0)
         )  # find the divs per beat in the first measure
-        if (
-            measures[0][1] - measures[0][0]
-            < self.time_signature_map(0)[0] * divs_per_beat
-        ):
-            measures[0][0] = (
-                measures[0][1] - self.time_signature_map(0)[0] * divs_per_beat
-            )
+        # whole number of divs: the time maps are floating point interpolators
+        divs_per_measure = np.round(self.time_signature_map(0)[0] * divs_per_beat)
+        if measures[0][1] - measures[0][0] < divs_per_measure:
+            measures[0][0] = measures[0][1] - divs_per_measure
 
         if len(measures) == 0:  # no measures in the piece
             # default only one measure spanning the entire timeline
@@ -380,13 +377,10 @@ class Part(object):
         divs_per_beat = self.inv_beat_map(
             1 + self.beat_map(0)
         )  # find the divs per beat in the first measure
-        if (
-            measures[0][1] - measures[0][0]
-            < self.time_signature_map(0)[0] * divs_per_beat
-        ):
-            measures[0][0] = (
-                measures[0][1] - self.time_signature_map(0)[0] * divs_per_beat
-            )
+        # whole number of divs: the time maps are floating point interpolators
+        divs_per_measure = np.round(self.time_signature_map(0)[0] * divs_per_beat)
+        if measures[0][1] - measures[0][0] < divs_per_measure:
+            measures[0][0] = measures[0][1] - divs_per_measure
 
         if len(measures) == 0:  # no measures in the piece
             # default only one measure spanning the entire timeline
